@@ -15,7 +15,7 @@ pub fn plan() -> Plan {
         meta: Meta {
             property: "C12",
             level: "exploration",
-            rule: "offline/online checker over the complete ordered I/O tap trace (every create, write with offset/length/payload, sync, positional rewrite) of sequential histories with a worker barrier after each step, for dirty-byte limits {0, 1, 100, 4096, 1 MiB, default}: (1) after every acknowledged write/delete + one barrier the active blob's un-synced bytes (file length minus length covered by the last completed sync, ground truth from the trace) are <= the limit; (2) in every blob file a sync covering the header precedes the first record write; (3) whenever an index header with the written bit is written, the blob_size parsed from the written bytes is <= the synced length of the blob file at that point of the trace; (4) after Ok from fsyncdata(), try_close_active_blob() and close() no un-synced bytes of that blob remain. Plus a kill-image scenario (the history is not closed; a copy of the directory is opened under a fresh trace whose files start with the synced lengths of the first trace; rule (3) must hold for every index the recovery regenerates and dumps), and a concurrent scenario (4-24 writer tasks, limits {0,100,4096,65536}): once all clients are done and the worker is idle, rule (1) must hold with no further client action. Histories: puts of 8 B..200 KiB, deletes (also into closed blobs), rotations, force updates, dumps, restarts. Non-trivial = history in which at least one sync was triggered by the dirty-byte limit or an index header was checked; distinct = hash(history, limit).",
+            rule: "offline/online checker over the complete ordered I/O tap trace (every create, write with offset/length/payload, sync, positional rewrite) of sequential histories with a worker barrier after each step, for dirty-byte limits {0, 1, 100, 4096, 1 MiB, default}: (1) after every acknowledged write/delete + one barrier the active blob's un-synced bytes (file length minus length covered by the last completed sync, ground truth from the trace) are <= the limit; (2) in every blob file a sync covering the header precedes the first record write; (3) whenever an index header with the written bit is written, the blob_size parsed from the written bytes is <= the synced length of the blob file at that point of the trace; (4) after Ok from fsyncdata(), try_close_active_blob() and close() no un-synced bytes of that blob remain. Plus a kill-image scenario (the history is not closed; a copy of the directory is opened under a fresh trace whose files start with the synced lengths of the first trace; rule (3) must hold for every index the recovery regenerates and dumps), a pending-sync-then-close scenario (a write crosses the limit and the active blob is closed at once, three times; a new blob then receives more than the limit: background syncs must still happen), and a concurrent scenario (4-24 writer tasks, limits {0,100,4096,65536}): once all clients are done and the worker is idle, rule (1) must hold with no further client action. Histories: puts of 8 B..200 KiB, deletes (also into closed blobs), rotations, force updates, dumps, restarts. Non-trivial = history in which at least one sync was triggered by the dirty-byte limit or an index header was checked; distinct = hash(history, limit).",
             assumptions: vec!["a sync event covers the file length observed under the per-file tap lock right before sync_all", "bytes present at (re)open are durable", "verdict holds for the traces produced for this seed"],
         },
         shards: 16,
@@ -277,6 +277,46 @@ async fn concurrent_scenario(dir: std::path::PathBuf, cfg: Cfg, seed: u64, limit
     Ok((writes, syncs))
 }
 
+/// A background sync request is still queued when the client closes the active blob (the write that crossed the limit
+/// has just returned; nothing waits for the worker in between): the sync task may find no active blob. Whatever it
+/// does then, background syncs must go on afterwards: a new active blob is created, more than the limit is written
+/// into it, and once the worker is idle its un-synced bytes must be within the limit with no further client action.
+async fn pending_sync_then_close(dir: std::path::PathBuf, cfg: Cfg, limit: u64, yields: u32) -> Result<(u64, u64), (String, String)> {
+    use bytes::Bytes;
+    use pearl::{ArrayKey, BlobRecordTimestamp, Storage};
+    let mut s: Storage<ArrayKey<8>> = crate::drive::builder_for(&cfg, &dir).build().map_err(|e| ("build".to_string(), format!("{:#}", e)))?;
+    let mut trace = Trace::new(true, false);
+    tap::arm(&dir, true, false);
+    s.init().await.map_err(|e| ("init".to_string(), format!("{:#}", e)))?;
+    let key = |k: u16| ArrayKey::<8>::from(crate::drive::key_bytes(5, k, 8));
+    for round in 0..3u16 {
+        // crosses the limit: a background sync is requested
+        let _ = s.write(&key(round * 10), Bytes::from(crate::drive::value_bytes(round as u64 + 1, (limit + 200) as u32)), BlobRecordTimestamp::new(1)).await;
+        for _ in 0..yields {
+            tokio::task::yield_now().await;
+        }
+        let _ = s.try_close_active_blob().await;
+        s.verif_barrier(true).await;
+        let _ = s.try_create_active_blob().await;
+    }
+    // the blob created last: two records, each above the limit
+    let _ = s.write(&key(100), Bytes::from(crate::drive::value_bytes(100, (limit + 300) as u32)), BlobRecordTimestamp::new(1)).await;
+    let _ = s.write(&key(101), Bytes::from(crate::drive::value_bytes(101, (limit + 300) as u32)), BlobRecordTimestamp::new(1)).await;
+    s.verif_barrier(true).await;
+    s.verif_barrier(true).await;
+    let ev = tap::drain(&dir);
+    trace.feed(&ev);
+    let (writes, syncs) = (trace.writes_seen, trace.syncs_seen);
+    let active = crate::drive::dir_ids(&dir).into_iter().max().map(|id| dir.join(format!("t.{}.blob", id)));
+    let dirty = active.as_ref().and_then(|a| trace.dirty(a)).unwrap_or(0);
+    let _ = s.close().await;
+    let _ = tap::disarm(&dir);
+    if dirty > limit {
+        return Err(("pending-sync-then-close/no-background-sync-afterwards".into(), format!("three times a write crossed the dirty-byte limit ({}) and the active blob was closed at once ({} yields in between); afterwards two records were written into a new active blob and the worker went idle: {} bytes of {:?} stay un-synced ({} writes, {} syncs in the trace)", limit, yields, dirty, active, writes, syncs)));
+    }
+    Ok((writes, syncs))
+}
+
 fn copy_dir(from: &std::path::Path, to: &std::path::Path) {
     let _ = std::fs::create_dir_all(to);
     if let Ok(rd) = std::fs::read_dir(from) {
@@ -399,6 +439,31 @@ pub fn shard(ctx: &Ctx) -> Shard {
                 }
                 Ok(Err((sig, d))) => sh.violation(&ctx.known, "C12", ctx.seed, &format!("C12/{}", sig), &d, replay),
                 Err(p) => sh.violation(&ctx.known, "C12", ctx.seed, "C12/kill-image/panic", &p, replay),
+            }
+            continue;
+        }
+        if n % 10 == 7 {
+            let mut cfg: Cfg = random_cfg(&mut rng, 4, 0, Some(true));
+            cfg.keylen = 8;
+            let limit = *rng.pick(&[100u64, 1000, 4096]);
+            cfg.max_dirty = Some(limit);
+            cfg.mt = rng.chance(1, 2);
+            let yields = rng.below(3) as u32;
+            let dir = new_dir("c12p-");
+            let r = block_on_catch(cfg.mt, pending_sync_then_close(dir.clone(), cfg.clone(), limit, yields));
+            rm_dir(&dir);
+            n += 1;
+            sh.evaluations += 1;
+            sh.add("pending_sync_then_close_scenarios", 1);
+            sh.nontrivial.insert(fnv(format!("psc|{}|{}|{}|{}", limit, yields, cfg.mt, n).as_bytes()));
+            let replay = json!({"check": "c12-pending-sync-then-close", "cfg": cfg.to_json(), "limit": limit, "yields": yields});
+            match r {
+                Ok(Ok((w, sy))) => {
+                    sh.add("concurrent_writes_traced", w);
+                    sh.add("concurrent_syncs_traced", sy);
+                }
+                Ok(Err((sig, d))) => sh.violation(&ctx.known, "C12", ctx.seed, &format!("C12/{}", sig), &d, replay),
+                Err(p) => sh.violation(&ctx.known, "C12", ctx.seed, "C12/pending-sync-then-close/panic", &p, replay),
             }
             continue;
         }
